@@ -606,6 +606,66 @@ def run_lingua(case, scratch=None):
         return _exc(e, err.getvalue())
 
 
+def _norm_babel(it):
+    out = []
+    for lineno, func, msgs, comments in it:
+        if not isinstance(msgs, (tuple, list)):
+            msgs = (msgs,)
+        out.append([lineno, func, [m for m in msgs if m is not None], list(comments)])
+    return out
+
+
+def run_reused(case, scratch=None):
+    """ONE extractor object for all steps; before every later step it is reconfigured (Lingua: Extractor.update_config
+    or assignment into .config, as lingua's read_config does; Babel: assignment into .config) and must then behave
+    like a freshly built extractor with that configuration"""
+    steps = case["docs"]
+    outs, err = [], io.StringIO()
+    ext = None
+    with contextlib.redirect_stderr(err):
+        for i, d in enumerate(steps):
+            conf = {"comment-tags": " ".join(d["tags"])}
+            enc_opt = d["cfg"].get("enc_option")
+            try:
+                if case["ext"] == "lingua":
+                    from mako.ext.linguaplugin import LinguaMakoExtractor
+
+                    base = lingua_setup()
+                    if enc_opt:
+                        conf["encoding"] = enc_opt
+                    if ext is None:
+                        ext = LinguaMakoExtractor(conf)
+                    elif case["method"] == "update_config":
+                        ext.update_config(**conf)
+                    else:
+                        for k, v in conf.items():
+                            ext.config[k] = v
+                    if d["cfg"]["transport"] == "file":
+                        dd = scratch or core.scratch_dir("c20")
+                        path = os.path.join(dd, "r%d.mako" % i)
+                        with open(path, "wb") as f:
+                            f.write(d["src"].encode(d["cfg"]["enc"]))
+                        it = ext(path, LinguaOptions())
+                    else:
+                        it = ext("t.mako", LinguaOptions(), io.StringIO(d["src"]))
+                    out = []
+                    for m in it:
+                        ids = [m.msgid] + ([m.msgid_plural] if m.msgid_plural else [])
+                        out.append([m.location[1] - base, None, ids, m.comment])
+                    outs.append(out)
+                else:
+                    from mako.ext.babelplugin import BabelMakoExtractor
+
+                    if ext is None:
+                        ext = BabelMakoExtractor(KEYWORDS, list(d["tags"]), dict(d["cfg"]["options"]))
+                    else:
+                        ext.config["comment-tags"] = conf["comment-tags"]
+                    outs.append(_norm_babel(ext(io.BytesIO(d["src"].encode(d["cfg"]["enc"])))))
+            except BaseException as e:  # noqa
+                outs.append(_exc(e, err.getvalue()))
+    return outs
+
+
 def run_interleaved(case, scratch=None):
     """two extractions in progress at once: both generators are created, then advanced in strict alternation"""
     docs = case["docs"]
@@ -638,7 +698,10 @@ def judge(case, obs):
         for k, d in enumerate(case["docs"]):
             for sig, oracle, expected, observed in judge(d, obs[k]):
                 parts = sig.split(":")
-                viol.append(("%s:interleaved:%s" % (parts[0], parts[1]), oracle + " (two extractions in progress at once)", expected, {"template": k, "observed": observed}))
+                if case.get("mode") == "reused":
+                    viol.append(("%s:reused-extractor:%s:%s" % (parts[0], case["changed"], parts[1]), oracle + " (one extractor object, reconfigured between extractions)", expected, {"step": k, "observed": observed}))
+                else:
+                    viol.append(("%s:interleaved:%s" % (parts[0], parts[1]), oracle + " (two extractions in progress at once)", expected, {"template": k, "observed": observed}))
         return viol
     ext = case["ext"]
     cfgname = case["cfg"]["name"]
@@ -739,6 +802,8 @@ def judge(case, obs):
 
 
 def execute(case, scratch=None):
+    if case.get("mode") == "reused":
+        return run_reused(case, scratch)
     if "docs" in case:
         return run_interleaved(case, scratch)
     if case["ext"] == "babel":
@@ -748,7 +813,7 @@ def execute(case, scratch=None):
 
 def outcome_class(case, obs, viol):
     if "docs" in case:
-        return (case["ext"], "interleaved", "viol" if viol else "ok", "msgs=%s" % "+".join("exc" if isinstance(o, dict) else str(len(o)) for o in obs))
+        return (case["ext"], case.get("mode", "interleaved"), "viol" if viol else "ok", "msgs=%s" % "+".join("exc" if isinstance(o, dict) else str(len(o)) for o in obs))
     if isinstance(obs, dict):
         return (case["ext"], "exception:" + obs["exception"])
     nc = sum(1 for o in obs if o[3])
@@ -768,6 +833,8 @@ BOUNDS = {
         "G8 interleaved extractions": "two extractions in progress at once, their generators advanced in strict alternation, either one first: template A = every layout that is right alone (49) x forms {u, 2, 2l}, template B = each of the 14 kinds x forms {u, 2l}; Babel and Lingua",
         "G9 filter-list layouts": "${expr | filters}: 0/1 line breaks before the '|' x 0..2 after it x 0..2 inside the list x 0..2 between the list and '}' (and the same with a builtin filter and the call in the expression); forms {u, 2, 2l}; with and without a second call in the expression part; LF/CRLF; {none, imm}",
         "G10 option sequences": "every ordered pair of 8 Babel configurations (no option, input_encoding x3, encoding x3, magic comment; same keywords and tags) and of Lingua's 4 file encodings, each pair in a fresh interpreter; plus any worker violation is re-checked in a fresh interpreter alone / after one recent case",
+        "G11 reused extractor": "one extractor object for 2-3 extractions, reconfigured in between (Lingua: update_config and assignment into .config; Babel: assignment into .config): every ordered pair of the comment-tag sets {A, B, A+B, none}, two triples, and (Lingua, files) every ordered pair of 4 encodings",
+        "G12 block bodies": "<% %> and <%! %> blocks (code on the tag line / on the next line) whose first statement is an import / assignment / call, containing one compound statement of {if, if-else, for, while, with, try, def, class} whose header lines end in {nothing, a comment, a comment with a colon, a tight comment}; calls before / inside / after it in all 7 combinations; LF/CRLF; {none, imm}",
         "G6 stale comment": "tagged comment directly before X in {message-free construct of each of the 14 kinds, the 4 control-line kinds left open, a text line, a blank line} x 0/1/3 text lines x {untagged comment, tagged comment, no comment} directly before a message construct of each of the 14 kinds x LF/CRLF",
     },
     "thorough": {
@@ -982,6 +1049,23 @@ def gen_unit(unit, tier, al):
                             doc = single_doc(al, enc, cons, P, eol, arr, "text")
                             doc["desc"]["expr_call"] = wec
                             yield from ext_cases(doc, al, enc)
+    elif g == "G11":
+        _, lo, hi = unit
+        for seq in reused_sequences()[lo:hi]:
+            yield reused_case(al, seq)
+    elif g == "G12":
+        _, bi = unit
+        kind, style, first = BLOCK_SHAPES[bi]
+        enc = "utf-8"
+        for comp in COMPOUNDS:
+            for hc in HEADER_COMMENTS:
+                for where in BLOCK_WHERE:
+                    cons = block_construct(al, enc, kind, style, first, comp, hc, where)
+                    for eol in ("lf", "crlf"):
+                        for arr in (("none", "imm") if tier == "quick" else ARRANGEMENTS):
+                            doc = single_doc(al, enc, cons, 1, eol, arr, "text")
+                            doc["desc"].update(block=[first, comp, hc, where])
+                            yield from ext_cases(doc, al, enc)
     elif g == "V":
         return
     else:
@@ -1057,7 +1141,138 @@ def units(tier):
     seqs = option_sequences()
     for i in range(0, len(seqs), 6):
         us.append(("G10", i, min(i + 6, len(seqs))))
+    n = len(reused_sequences())
+    for i in range(0, n, 8):
+        us.append(("G11", i, min(i + 8, n)))
+    for bi in range(len(BLOCK_SHAPES)):
+        us.append(("G12", bi))
     return us
+
+
+# --------------------------------------------------------------------------
+# G12: <% %> / <%! %> blocks with compound statements whose header lines carry a trailing Python comment
+
+BLOCK_SHAPES = [(k, st_, first) for k in ("code", "modcode") for st_ in ("lead", "inline") for first in ("import", "assign", "call")]
+COMPOUNDS = ["if", "for", "while", "with", "try", "def", "class", "if-else"]
+HEADER_COMMENTS = ["", "  # the common case", "  # case: a", "# tight"]
+BLOCK_WHERE = ["b", "i", "a", "bi", "ia", "ba", "bia"]  # calls before / inside / after the compound statement
+
+
+def block_construct(al, enc, kind, style, first, comp, hc, where):
+    calls = []
+
+    def call(func, ident):
+        src, val = al.msg(enc, ident)
+        text = "%s('%s')" % (func, src)
+        calls.append({"func": func, "msgs": [val], "text": text})
+        return text
+
+    lines = []
+    lines.append({"import": "import os", "assign": "y = 0", "call": "y = len(str(0))"}[first])
+    if "b" in where:
+        lines.append("v = " + call("_", "k0"))
+    inner = "z = " + call("gettext", "k1") if "i" in where else "z = 1"
+    if comp == "if":
+        lines += ["if y == 0:" + hc, "    " + inner]
+    elif comp == "if-else":
+        lines += ["if y == 0:" + hc, "    z = 2", "else:" + hc, "    " + inner]
+    elif comp == "for":
+        lines += ["for n in range(3):" + hc, "    " + inner]
+    elif comp == "while":
+        lines += ["while y < 0:" + hc, "    " + inner]
+    elif comp == "with":
+        lines += ["with ctx() as q:" + hc, "    " + inner]
+    elif comp == "try":
+        lines += ["try:" + hc, "    " + inner, "except ValueError:" + hc, "    z = 0"]
+    elif comp == "def":
+        lines += ["def g(a, b=1):" + hc, "    " + inner, "    return z"]
+    elif comp == "class":
+        lines += ["class C(object):" + hc, "    " + inner]
+    if "a" in where:
+        lines.append("w = " + call("_", "k2"))
+    op = "<%" if kind == "code" else "<%!"
+    if style == "lead":
+        main = op + "\n" + "".join("    " + l + "\n" for l in lines) + "%>"
+        lead = 1
+    else:
+        main = op + " " + "\n".join(lines) + "\n%>"
+        lead = 0
+    for k in calls:
+        # Python '#' comments inside the block are outside the statement: the comment clauses are not judged here
+        k.update(kind=kind, style="block-" + comp, lead=lead, tagoff=0, filtoff=0, anycomment=True)
+    return {"head": "", "main": main, "inline_after": True, "lead": lead, "tagoff": 0, "calls": calls, "layout": (kind, "block-" + style, 0), "form": "block"}
+
+
+# --------------------------------------------------------------------------
+# G11: one long-lived extractor object, reconfigured between extractions
+
+TAGSETS = {"A": [0], "B": [1], "AB": [0, 1], "none": []}
+
+
+def reused_sequences():
+    seqs = []
+    names = list(TAGSETS)
+    for ext, methods in (("lingua", ("update_config", "config-assignment")), ("babel", ("config-assignment",))):
+        for m in methods:
+            for a in names:
+                for b in names:
+                    if a != b:
+                        seqs.append((ext, m, "comment-tags", [a, b]))
+            seqs.append((ext, m, "comment-tags", ["A", "B", "A"]))
+            seqs.append((ext, m, "comment-tags", ["AB", "none", "B"]))
+    for m in ("update_config", "config-assignment"):
+        for a in LINGUA_FILE:
+            for b in LINGUA_FILE:
+                if a != b:
+                    seqs.append(("lingua", m, "encoding", [a, b]))
+    return seqs
+
+
+def tag_doc(al, enc, configured, base):
+    """two constructs, the first under a comment with tag A, the second under one with tag B; what is attached
+    depends on which of the two tags are configured"""
+    tagsAB = [al.tag, al.tag2]
+    w = al.plain(enc)
+    cA, cB = "%s %s1" % (tagsAB[0], w), "%s %s2" % (tagsAB[1], w)
+    A = construct(al, enc, ("expr", "code", 0), "u", base=base + "a", n="1")
+    B = construct(al, enc, ("code", "lead", 1), "2l", base=base + "b", n="2")
+    text = al.filler + "\n## " + cA + "\n" + A["main"] + "\n" + al.filler + "\n## " + cB + "\n" + B["main"] + "\n"
+    planted = []
+    for k in A["calls"]:
+        planted.append(dict(k, req=[cA] if 0 in configured else [], opt=[], arr="tagA"))
+    for k in B["calls"]:
+        planted.append(dict(k, req=[cB] if 1 in configured else [], opt=[], arr="tagB"))
+    doc = finish_doc(text, "lf", planted, {}, {"reused": True})
+    doc["tags"] = [tagsAB[i] for i in configured]
+    return doc
+
+
+def reused_case(al, seq):
+    ext, method, changed, names = seq
+    docs = []
+    for i, name in enumerate(names):
+        if changed == "comment-tags":
+            enc, configured = "utf-8", TAGSETS[name]
+            cfg = {"name": "reused/" + name, "enc": enc, "transport": "fileobj" if ext == "lingua" else "bytes", "options": {"encoding": "utf-8"}}
+        else:
+            enc, configured = name, TAGSETS["AB"]
+            cfg = {"name": "reused/" + name, "enc": enc, "transport": "file", "enc_option": enc}
+        d = tag_doc(al, enc, configured, "s%d" % i)
+        d.update(ext=ext, cfg=cfg)
+        docs.append(d)
+    return {
+        "ext": ext,
+        "mode": "reused",
+        "method": method,
+        "changed": changed,
+        "cfg": {"name": "reused:%s:%s:%s" % (method, changed, ">".join(names)), "transport": "reused"},
+        "src": "\x00".join(d["src"] for d in docs),
+        "docs": docs,
+        "expect": [e for d in docs for e in d["expect"]],
+        "decoys": {},
+        "tags": [],
+        "desc": {"reused": [method, changed, names]},
+    }
 
 
 # --------------------------------------------------------------------------
@@ -1154,7 +1369,7 @@ def is_nontrivial(case):
     d = case["desc"]
     if not case["expect"]:
         return False
-    if "multi" in d or "stale" in d or "interleave" in d or "sequence" in d:
+    if "multi" in d or "stale" in d or "interleave" in d or "sequence" in d or "reused" in d or "block" in d:
         return True
     return (
         d["arr"] != "none"
@@ -1186,7 +1401,7 @@ def run_job(job):
             if key in seen:
                 continue
             seen.add(key)
-            if case["cfg"]["transport"] == "file" and scratch is None:
+            if (case["cfg"]["transport"] == "file" or case.get("changed") == "encoding") and scratch is None:
                 scratch = core.scratch_dir("c20")
             check(case, st, scratch, unit[0])
     st.extra["lingua_line_base"] = _lingua_state.get("base", "n/a")
@@ -1211,9 +1426,9 @@ def check(case, st, scratch, group):
         _recent.pop(k, None)
         _recent[k] = case
     if "docs" in case:
-        st.evaluations += 2
+        st.evaluations += len(case["docs"])
         st.transitions += sum(1 if isinstance(o, dict) else max(1, len(o)) for o in obs)
-        st.oracles[case["ext"] + ":interleaved"] += 1
+        st.oracles[case["ext"] + ":" + case.get("mode", "interleaved")] += 1
     else:
         st.evaluations += 1
         st.transitions += 1 if isinstance(obs, dict) else max(1, len(obs))
@@ -1310,6 +1525,18 @@ def validity(al, st):
                 st.extra.setdefault("harness_errors", []).append(
                     "planter produced a template Mako rejects: %s: %s\n%s" % (type(e).__name__, str(e)[:200], doc["src"])
                 )
+    for kind, style, first in BLOCK_SHAPES:
+        for comp in COMPOUNDS:
+            for hc in HEADER_COMMENTS:
+                cons = block_construct(al, "utf-8", kind, style, first, comp, hc, "bia")
+                doc = single_doc(al, "utf-8", cons, 1, "lf", "imm", "text")
+                try:
+                    Template(doc["src"], imports=["_ = gettext = lambda s: s", "ngettext = lambda s, p, n: s", "n = x = 1", "y = 0", "from contextlib import nullcontext as ctx"])
+                    n += 1
+                except BaseException as e:  # noqa
+                    st.extra.setdefault("harness_errors", []).append(
+                        "planter produced a template Mako rejects: %s: %s\n%s" % (type(e).__name__, str(e)[:200], doc["src"])
+                    )
     for layout in FILT_LAYOUTS:
         for wec in (False, True):
             cons = filt_construct(al, "utf-8", layout, "2l", wec)
